@@ -88,6 +88,9 @@ type Field struct {
 	Type    *Type
 	Req     Requiredness
 	Default *Val   // nil = none
+	// DefaultConst, when set, names a constant of the same file that the IDL gives as
+	// the default (Default still holds its value)
+	DefaultConst string
 	Annot   string // raw annotation text, e.g. `go.redact`
 	// GoName is the name of the generated Go field when the annotations rename it
 	// (go.name); empty = Name.
@@ -279,7 +282,9 @@ func (p *Program) fieldIDL(f *File, fd Field, withReq bool, sep string) string {
 		}
 	}
 	s += fd.Type.IDL() + " " + fd.Name
-	if fd.Default != nil {
+	if fd.Default != nil && fd.DefaultConst != "" {
+		s += " = " + fd.DefaultConst
+	} else if fd.Default != nil {
 		s += " = " + p.LitIDL(f, fd.Type, fd.Default)
 	}
 	if fd.Annot != "" {
